@@ -7,6 +7,10 @@ REGISTRY = {
                 extract=[("verify", "ExtractVerify.v", "verify_driver.ml")]),
     "C01": dict(go=["translate"], translate=[("precedence", "GenPrecedence.v")]),
     "C20": dict(go=["c20obs"]),
+    "C05": dict(go=["c05obs"]),
+    # C11 / C12 build their own overlay tools and generators inside the checks; setup pre-generates their Coq inputs
+    "C11": dict(extract=[("globals", "ExtractGlobals.v", "globals_driver.ml")]),
+    "C12": dict(extract=[("osprop", "ExtractOsProp.v", "osprop_driver.ml")]),
     "C18": dict(go=["c18obs"]),
     "C17": dict(go=["c17obs"], extract=[("marshal", "ExtractMarshal.v", "marshal_driver.ml")]),
     # pregen: (tool, args after the repo path, generated file under coq/gen) - run before the Coq build
